@@ -113,12 +113,21 @@ def run(chk):
   tr = FnView(repo, 'universe.SubqueryTranslator.TranslateRule')
   fw = tr.need_calls('universe.LogicaProgram.SingleRuleSql')
   for n, c in fw:
-    ok = dotted(kwarg(c, 'is_combine', 3)) == 'is_combine' and \
+    ic = kwarg(c, 'is_combine', 3)
+    # the flag itself, or the constant the dominating test of the flag implies
+    # (absent = the default False)
+    known = [val for e, val in tr.guards(n) if dotted(e) == 'is_combine']
+    ic_ok = dotted(ic) == 'is_combine' or (
+        known and len(set(known)) == 1 and
+        ((ic is None and known[0] is False) or
+         (isinstance(ic, ast.Constant) and ic.value is known[0])))
+    ok = bool(ic_ok) and \
         dotted(kwarg(c, 'external_vocabulary', 2)) == 'external_vocabulary' and \
         dotted(c.args[0]) == 'rule'
     chk.ob('C02-R2', ok, None, 'TranslateRule forwards rule, external_vocabulary, is_combine',
            'the sub-query translator drops or swaps an argument: %s' % norm(c, 90),
            fi=tr.fi, node=c)
+  K.translation_not_memoised(chk, 'C02-R2')
   s = FnView(repo, 'universe.LogicaProgram.SingleRuleSql')
   dec = [(n, c) for n, c in s.all_calls() if call_tail(c) == 'DecorateCombineRule']
   ok = bool(dec)
@@ -140,6 +149,7 @@ def run(chk):
            'aggregate whose argument mentions only outer columns is attached '
            'to the outer SELECT by SQL, whatever the sub-query reads',
            fi=dc.fi, node=r)
+  K.dialect_entangles(chk, 'C02-R2')
   ext = s.need_calls(EXTRACT)
   for n, c in ext:
     decorated = dec and c.args and isinstance(c.args[0], ast.Name) and any(
